@@ -25,7 +25,7 @@ PROPS["C20"] = dict(
     technique="model-based stateful property testing (rapidcheck-generated op histories vs std::map reference model)",
     level_text="Generated operation histories over collision-rich key pools are compared step by step with a std::map reference; exploration only - absence of violations on the explored histories, not a proof.",
     level_note="Trusted: std::map, the harness' read-only chain inspection, ASan/UBSan runtimes. Assumes keys stay alive (the table does not copy keys) and binary keys only on case-sensitive tables.",
-    quick=dict(cases=4000, maxlen=1300, budget=60),
+    quick=dict(cases=2500, maxlen=1300, budget=60),
     thorough=dict(cases=60000, maxlen=1300, budget=600),
     rule=("rapidcheck generates a choice sequence decoded into (case mode, string|binary keys, size request, "
           "key pool of 2-400 keys drawn from a collision-rich shortlex space over {a,A,b,B,z,0,_,0x80,0xff} or "
@@ -65,4 +65,19 @@ PROPS["C06"] = dict(
           "cyclic chunk plan; cyclic per-call output limits; int16|float32). Non-trivial = >=3 frames, >=2 processing calls and at least one call "
           "left a partial window in the overflow buffer; distinct = distinct case text."),
     assumptions=["output limit per call >= 1 (documented loop); window >= shift (initialiser requirement)", "dither off"],
+)
+
+PROPS["C05"] = dict(
+    harness="jsgf",
+    level="exploration",
+    technique="property-based testing against a reference model: bounded language of the JSGF seen as a CFG (least fixpoint) vs bounded language of the compiled FSG; must-refuse classifier; weight normalisation and proportionality",
+    level_text="Generated JSGF ASTs (sequences, weighted alternatives, groups, optionals, star/plus, rule references, <NULL>, <VOID>, tags, comments, quoting, header variants; one injected recursion/refusal class) are printed with random layout and compiled; the language of the FSG up to k words must equal the CFG language in both directions; unrepresentable classes must be refused through the return value, representable ones must not; outgoing probabilities sum to one per state of the raw automaton and best-path probabilities are proportional to the written weights.",
+    level_note="Trusted: the harness' CFG least-fixpoint enumerator and epsilon-NFA enumerator (fsa.h), logmath_exp/log (judged by C19). Bounded to k words (k chosen so that the full sentence space has <= 2500 strings); weights are only generated on alternatives (the only place JSGF defines them).",
+    quick=dict(cases=450, maxlen=400, budget=90),
+    thorough=dict(cases=20000, maxlen=400, budget=900),
+    rule=("choices decode to a JSGF AST: 1-4 rules over 2-4 words, depth 1-3, operators sequence/alternatives(+weights)/group/optional/star/plus/"
+          "rule reference/<NULL>, tags and quoting, plus one class from {plain, tail recursion direct/nested/mutual, left recursion, embedded "
+          "recursion direct/nested/under-star, undefined rule, <VOID>, no public rule}; printed with random whitespace/comments/header. "
+          "Non-trivial = must-refuse class, or language has >= 3 sentences up to k and the AST uses >= 2 distinct operators; distinct = distinct grammar text."),
+    assumptions=["tokens are compared after stripping one pair of surrounding quotes", "weights appear only at the start of alternatives"],
 )
